@@ -606,7 +606,8 @@ def _run_check(P, tier, seed, replay=None):
                 continue
             if ip == mp:
                 corr['agree'] += 1
-                if ii != mi:
+                # internal observables are compared only where the driver prints comparable ones (the plug-in says so)
+                if ii != mi and getattr(P, 'INTERNAL_COMPARABLE', True):
                     corr['drift'] += 1
             elif (mp or '').startswith('unsupported'):
                 # a case outside the domain of the model: judged by the spec oracle (and the sanitizers) only
